@@ -12,6 +12,21 @@ def mapRanges : List String := [
   "journal.BuildJournal: activeTrips",
   "journal.BuildJournal: trips"]
 
+/-- the same sites with the extractor's structural classification: `independent` (each iteration touches only its own entry), `collect-then-sort` (the body only appends to slices that are sorted afterwards in the same function), or `unclassified: why` -/
+def mapRangeClasses : List String := [
+  "gtfs.ParseRealtime: tripsById: collect-then-sort",
+  "gtfs.ParseRealtime: vehiclesByID: collect-then-sort",
+  "gtfs.ParseStatic: serviceIdToService: unclassified: result.Services is filled in map order and not sorted afterwards",
+  "gtfs.parseAlert: informedRoutesFromTripIDs: collect-then-sort",
+  "gtfs.parseScheduledStopTimes: idToTrip: independent",
+  "gtfs.parseShapes: shapeIDToRowData: collect-then-sort",
+  "journal.BuildJournal: activeTrips: independent",
+  "journal.BuildJournal: trips: collect-then-sort"]
+
+/-- range-over-map sites whose order-insensitivity the extractor could not establish structurally -/
+def mapRangesUnclassified : List String := [
+  "gtfs.ParseStatic: serviceIdToService: unclassified: result.Services is filled in map order and not sorted afterwards"]
+
 /-- every `for` without a condition -/
 def unboundedLoops : List String := [
   "gtfs.Stop.Root: for {}",
@@ -19,118 +34,116 @@ def unboundedLoops : List String := [
 
 /-- every expression that can panic on some value: index/slice on non-maps, explicit dereference, type assertion, panic call -/
 def panicSites : List String := [
-  "csv.OptionalColumn.Read: index c.f.currentRow.cells[c.i]",
-  "csv.OptionalColumn.ReadOr: index c.f.currentRow.cells[c.i]",
-  "csv.RequiredColumn.Read: index c.f.currentRow.cells[c.i]",
-  "csv.RequiredColumn.Read: index r.cells[c.i]",
-  "extensions/nyctalerts.buildMetadata: assert proto.GetExtension(alert, gtfsrt.E_MercuryAlert).(*gtfsrt.MercuryAlert)",
-  "extensions/nyctalerts.buildMetadata: index activePeriodTranslations[0]",
-  "extensions/nyctalerts.extension.UpdateAlert: deref *ID",
-  "extensions/nyctalerts.extension.updateElevatorAlert: deref *ID",
-  "extensions/nyctalerts.extension.updateElevatorAlert: deref *entity.StopId",
-  "extensions/nyctalerts.extension.updateElevatorAlert: index match[1]",
-  "extensions/nyctalerts.extension.updateElevatorAlert: index match[2]",
-  "extensions/nyctalerts.extension.updateElevatorAlert: index match[3]",
-  "extensions/nyctalerts.getPriorityFromInformedEntity: assert proto.GetExtension(informedEntity, gtfsrt.E_MercuryEntitySelector).(*gtfsrt.MercuryEntitySelector)",
-  "extensions/nyctalerts.getPriorityFromInformedEntity: slice sortOrder[i+1:]",
-  "extensions/nycttrips.extension.GetTrack: assert extendedEvent.(*gtfsrt.NyctStopTimeUpdate)",
-  "extensions/nycttrips.extension.updateTripOrVehicle: assert extendedEvent.(*gtfsrt.NyctTripDescriptor)",
-  "extensions/nycttrips.extension.updateTripOrVehicle: index nyctTripIDMatch[1]",
-  "extensions/nycttrips.fixMTrainPlatformsInBushwick: index stopID[3]",
-  "extensions/nycttrips.fixMTrainPlatformsInBushwick: slice stopID[:3]",
-  "extensions/nycttrips.isStaleUnassignedTrip: index stopTimes[0]",
-  "gtfs.ParseRealtime: assert opts.Extension.(extensions.PerMessageExtension)",
-  "gtfs.ParseRealtime: deref *alert",
-  "gtfs.ParseRealtime: deref *opts",
-  "gtfs.ParseRealtime: deref *t",
-  "gtfs.ParseRealtime: deref *trip",
-  "gtfs.ParseRealtime: deref *vehicle",
-  "gtfs.ParseRealtime: deref *vehicle.ID",
-  "gtfs.ParseRealtime: index result.Trips[i]",
-  "gtfs.ParseRealtime: index result.Trips[j]",
-  "gtfs.ParseRealtime: index result.Vehicles[i]",
-  "gtfs.ParseRealtime: index result.Vehicles[j]",
-  "gtfs.ParseRealtime: index shouldSkip[i]",
-  "gtfs.ParseStatic: index result.Agencies[0]",
-  "gtfs.ParseStatic: index result.Services[i]",
-  "gtfs.ParseStatic: index result.Services[j]",
-  "gtfs.ParseStatic: index result.Shapes[idx]",
-  "gtfs.ParseStatic: index result.Trips[idx]",
-  "gtfs.StopTimeUpdate.GetArrival: deref *stopTimeUpdate.Arrival",
-  "gtfs.StopTimeUpdate.GetDeparture: deref *stopTimeUpdate.Departure",
-  "gtfs.Trip.GetVehicle: deref *trip.Vehicle",
-  "gtfs.Vehicle.GetID: deref *vehicle.ID",
-  "gtfs.Vehicle.GetTrip: deref *vehicle.Trip",
-  "gtfs.convertOptionalTimestamp: deref *in",
-  "gtfs.hashNumberPtr: deref *a",
-  "gtfs.hasher.number: panic",
-  "gtfs.hasher.stringPtr: deref *a",
-  "gtfs.hasher.trip: deref *event.Delay",
-  "gtfs.hasher.trip: index t.StopTimeUpdates[i]",
-  "gtfs.mergeTrip: deref *t",
-  "gtfs.mergeVehicle: deref *v",
-  "gtfs.parseAlert: deref *entity.RouteId",
-  "gtfs.parseAlert: deref *tripIDOrNil",
-  "gtfs.parseCalendar: index dayColumns[0]",
-  "gtfs.parseCalendar: index dayColumns[1]",
-  "gtfs.parseCalendar: index dayColumns[2]",
-  "gtfs.parseCalendar: index dayColumns[3]",
-  "gtfs.parseCalendar: index dayColumns[4]",
-  "gtfs.parseCalendar: index dayColumns[5]",
-  "gtfs.parseCalendar: index dayColumns[6]",
-  "gtfs.parseCalendar: index dayColumns[i]",
-  "gtfs.parseDirectionID_GTFSRealtime: deref *raw",
-  "gtfs.parseFrequencies: deref *headwaySecsOrNil",
-  "gtfs.parseGtfsTimeToDuration: index pieces[0]",
-  "gtfs.parseGtfsTimeToDuration: index pieces[1]",
-  "gtfs.parseGtfsTimeToDuration: index pieces[2]",
-  "gtfs.parseGtfsTimeToDuration: index pieces[i]",
-  "gtfs.parseRouteType_GTFSRealtime: deref *raw",
-  "gtfs.parseRoutes: index agencies[0]",
-  "gtfs.parseRoutes: index agencies[i]",
-  "gtfs.parseScheduledStopTimes: index stops[i]",
-  "gtfs.parseScheduledStopTimes: index trip.StopTimes[i]",
-  "gtfs.parseScheduledStopTimes: index trip.StopTimes[j]",
-  "gtfs.parseScheduledStopTimes: index trips[i]",
-  "gtfs.parseScheduledTrips: index routes[i]",
-  "gtfs.parseScheduledTrips: index services[i]",
-  "gtfs.parseShapes: deref *shapePtLat",
-  "gtfs.parseShapes: deref *shapePtLon",
-  "gtfs.parseShapes: deref *shapePtSequence",
-  "gtfs.parseShapes: index rows[i]",
-  "gtfs.parseShapes: index rows[j]",
-  "gtfs.parseShapes: index shapes[i]",
-  "gtfs.parseShapes: index shapes[j]",
-  "gtfs.parseStartDate: deref *startDate",
-  "gtfs.parseStartDate: index startDateMatch[1]",
-  "gtfs.parseStartDate: index startDateMatch[2]",
-  "gtfs.parseStartDate: index startDateMatch[3]",
-  "gtfs.parseStartTime: deref *startTime",
-  "gtfs.parseStartTime: index startTimeMatch[1]",
-  "gtfs.parseStartTime: index startTimeMatch[2]",
-  "gtfs.parseStartTime: index startTimeMatch[3]",
-  "gtfs.parseStops: index stops[i]",
-  "gtfs.parseStops: index stops[parentStopIndex]",
-  "gtfs.parseTransfers: index stops[i]",
-  "gtfs.parseTripUpdate: deref *stopTimeEvent.Delay",
-  "gtfs.parseTripUpdate: deref *stopTimeEvent.Time",
-  "gtfs.parseVehicle: deref *vehiclePosition.CongestionLevel",
-  "gtfs.parseVehicleDescriptor: deref *s",
-  "journal.BuildJournal: deref *trips[tripID]",
-  "journal.DirectoryGtfsrtSource.Next: index s.fileNames[0]",
-  "journal.DirectoryGtfsrtSource.Next: slice s.fileNames[1:]",
-  "journal.Trip.markPast: index trip.StopTimes[i]",
-  "journal.Trip.update: index p.new[i]",
-  "journal.Trip.update: index p.past[i]",
-  "journal.Trip.update: slice trip.StopTimes[:len(p.past)+len(p.updated)]",
-  "journal.buildTripUID: slice tripID[6:]",
-  "journal.createPartition: index stopTimes[firstUpdatedStopTimeIndex+i]",
-  "journal.createPartition: index updates[0]",
-  "journal.createPartition: index updates[updateIndex]",
-  "journal.createPartition: slice stopTimes[:firstUpdatedStopTimeIndex]",
-  "journal.createPartition: slice stopTimes[firstUpdatedStopTimeIndex:]",
-  "journal.createPartition: slice updates[updateIndex:]",
-  "journal.stopIDOrEmpty: deref *stopTimeUpdate.StopID"]
+  "csv.OptionalColumn.Read: index c.f.currentRow.cells[c.i]  [unguarded: csv: index []string]",
+  "csv.OptionalColumn.ReadOr: index c.f.currentRow.cells[c.i]  [unguarded: csv: index []string]",
+  "csv.RequiredColumn.Read: index c.f.currentRow.cells[c.i]  [unguarded: csv: index []string]",
+  "csv.RequiredColumn.Read: index r.cells[c.i]  [guard: bounds-checked]",
+  "extensions/nyctalerts.buildMetadata: assert proto.GetExtension(alert, gtfsrt.E_MercuryAlert).(*gtfsrt.MercuryAlert)  [unguarded: extensions/nyctalerts: assert interface{}]",
+  "extensions/nyctalerts.buildMetadata: index activePeriodTranslations[0]  [guard: len-checked]",
+  "extensions/nyctalerts.extension.UpdateAlert: deref *ID  [unguarded: extensions/nyctalerts: deref *string]",
+  "extensions/nyctalerts.extension.updateElevatorAlert: deref *ID  [unguarded: extensions/nyctalerts: deref *string]",
+  "extensions/nyctalerts.extension.updateElevatorAlert: deref *entity.StopId  [guard: nil-checked]",
+  "extensions/nyctalerts.extension.updateElevatorAlert: index match[1]  [guard: regex-match]",
+  "extensions/nyctalerts.extension.updateElevatorAlert: index match[2]  [guard: regex-match]",
+  "extensions/nyctalerts.extension.updateElevatorAlert: index match[3]  [guard: regex-match]",
+  "extensions/nyctalerts.getPriorityFromInformedEntity: assert proto.GetExtension(informedEntity, gtfsrt.E_MercuryEntitySelector).(*gtfsrt.MercuryEntitySelector)  [unguarded: extensions/nyctalerts: assert interface{}]",
+  "extensions/nyctalerts.getPriorityFromInformedEntity: slice sortOrder[i+1:]  [unguarded: extensions/nyctalerts: slice string]",
+  "extensions/nycttrips.extension.updateTripOrVehicle: index nyctTripIDMatch[1]  [guard: regex-match]",
+  "extensions/nycttrips.fixMTrainPlatformsInBushwick: index stopID[3]  [guard: len-checked]",
+  "extensions/nycttrips.fixMTrainPlatformsInBushwick: slice stopID[:3]  [guard: len-checked]",
+  "extensions/nycttrips.isStaleUnassignedTrip: index stopTimes[0]  [guard: len-checked]",
+  "gtfs.ParseRealtime: deref *alert  [guard: nil-checked]",
+  "gtfs.ParseRealtime: deref *opts  [unguarded: gtfs: deref *gtfs.ParseRealtimeOptions]",
+  "gtfs.ParseRealtime: deref *t  [guard: nil-checked]",
+  "gtfs.ParseRealtime: deref *trip  [guard: nil-checked]",
+  "gtfs.ParseRealtime: deref *trip  [unguarded: gtfs: deref *gtfs.Trip]",
+  "gtfs.ParseRealtime: deref *vehicle  [guard: nil-checked]",
+  "gtfs.ParseRealtime: deref *vehicle  [unguarded: gtfs: deref *gtfs.Vehicle]",
+  "gtfs.ParseRealtime: deref *vehicle.ID  [guard: nil-checked]",
+  "gtfs.ParseRealtime: index result.Trips[i]  [guard: sort-comparator]",
+  "gtfs.ParseRealtime: index result.Trips[j]  [guard: sort-comparator]",
+  "gtfs.ParseRealtime: index result.Vehicles[i]  [guard: sort-comparator]",
+  "gtfs.ParseRealtime: index result.Vehicles[j]  [guard: sort-comparator]",
+  "gtfs.ParseRealtime: index shouldSkip[i]  [unguarded: gtfs: index []bool]",
+  "gtfs.ParseStatic: index result.Agencies[0]  [guard: len-checked]",
+  "gtfs.ParseStatic: index result.Shapes[idx]  [guard: range-index]",
+  "gtfs.ParseStatic: index result.Trips[idx]  [guard: range-index]",
+  "gtfs.StopTimeUpdate.GetArrival: deref *stopTimeUpdate.Arrival  [guard: nil-checked]",
+  "gtfs.StopTimeUpdate.GetDeparture: deref *stopTimeUpdate.Departure  [guard: nil-checked]",
+  "gtfs.Trip.GetVehicle: deref *trip.Vehicle  [guard: nil-checked]",
+  "gtfs.Vehicle.GetID: deref *vehicle.ID  [guard: nil-checked]",
+  "gtfs.Vehicle.GetTrip: deref *vehicle.Trip  [guard: nil-checked]",
+  "gtfs.convertOptionalTimestamp: deref *in  [guard: nil-checked]",
+  "gtfs.hashNumberPtr: deref *a  [guard: nil-checked]",
+  "gtfs.hasher.number: panic   [unguarded: gtfs: panic in hasher.number]",
+  "gtfs.hasher.stringPtr: deref *a  [guard: nil-checked]",
+  "gtfs.hasher.trip: deref *event.Delay  [guard: nil-checked]",
+  "gtfs.hasher.trip: index t.StopTimeUpdates[i]  [guard: range-index]",
+  "gtfs.mergeTrip: deref *t  [unguarded: gtfs: deref *gtfs.Trip]",
+  "gtfs.mergeVehicle: deref *v  [unguarded: gtfs: deref *gtfs.Vehicle]",
+  "gtfs.parseAlert: deref *entity.RouteId  [guard: nil-checked]",
+  "gtfs.parseAlert: deref *tripIDOrNil  [unguarded: gtfs: deref *gtfs.TripID]",
+  "gtfs.parseCalendar: index dayColumns[0]  [guard: array-const]",
+  "gtfs.parseCalendar: index dayColumns[1]  [guard: array-const]",
+  "gtfs.parseCalendar: index dayColumns[2]  [guard: array-const]",
+  "gtfs.parseCalendar: index dayColumns[3]  [guard: array-const]",
+  "gtfs.parseCalendar: index dayColumns[4]  [guard: array-const]",
+  "gtfs.parseCalendar: index dayColumns[5]  [guard: array-const]",
+  "gtfs.parseCalendar: index dayColumns[6]  [guard: array-const]",
+  "gtfs.parseCalendar: index dayColumns[i]  [unguarded: gtfs: index [7]csv.RequiredColumn]",
+  "gtfs.parseDirectionID_GTFSRealtime: deref *raw  [guard: nil-checked]",
+  "gtfs.parseFrequencies: deref *headwaySecsOrNil  [guard: nil-checked]",
+  "gtfs.parseGtfsTimeToDuration: index pieces[0]  [guard: array-const]",
+  "gtfs.parseGtfsTimeToDuration: index pieces[1]  [guard: array-const]",
+  "gtfs.parseGtfsTimeToDuration: index pieces[2]  [guard: array-const]",
+  "gtfs.parseGtfsTimeToDuration: index pieces[i]  [unguarded: gtfs: index [3]int]",
+  "gtfs.parseRouteType_GTFSRealtime: deref *raw  [guard: nil-checked]",
+  "gtfs.parseRoutes: index agencies[0]  [guard: len-checked]",
+  "gtfs.parseRoutes: index agencies[i]  [guard: range-index]",
+  "gtfs.parseScheduledStopTimes: index stops[i]  [guard: range-index]",
+  "gtfs.parseScheduledStopTimes: index trip.StopTimes[i]  [guard: sort-comparator]",
+  "gtfs.parseScheduledStopTimes: index trip.StopTimes[j]  [guard: sort-comparator]",
+  "gtfs.parseScheduledStopTimes: index trips[i]  [guard: range-index]",
+  "gtfs.parseScheduledTrips: index routes[i]  [guard: range-index]",
+  "gtfs.parseScheduledTrips: index services[i]  [guard: range-index]",
+  "gtfs.parseShapes: deref *shapePtLat  [guard: nil-checked]",
+  "gtfs.parseShapes: deref *shapePtLon  [guard: nil-checked]",
+  "gtfs.parseShapes: deref *shapePtSequence  [guard: nil-checked]",
+  "gtfs.parseShapes: index rows[i]  [guard: sort-comparator]",
+  "gtfs.parseShapes: index rows[j]  [guard: sort-comparator]",
+  "gtfs.parseShapes: index shapes[i]  [guard: sort-comparator]",
+  "gtfs.parseShapes: index shapes[j]  [guard: sort-comparator]",
+  "gtfs.parseStartDate: deref *startDate  [guard: nil-checked]",
+  "gtfs.parseStartDate: index startDateMatch[1]  [guard: regex-match]",
+  "gtfs.parseStartDate: index startDateMatch[2]  [guard: regex-match]",
+  "gtfs.parseStartDate: index startDateMatch[3]  [guard: regex-match]",
+  "gtfs.parseStartTime: deref *startTime  [guard: nil-checked]",
+  "gtfs.parseStartTime: index startTimeMatch[1]  [guard: regex-match]",
+  "gtfs.parseStartTime: index startTimeMatch[2]  [guard: regex-match]",
+  "gtfs.parseStartTime: index startTimeMatch[3]  [guard: regex-match]",
+  "gtfs.parseStops: index stops[i]  [guard: range-index]",
+  "gtfs.parseStops: index stops[i]  [unguarded: gtfs: index []gtfs.Stop]",
+  "gtfs.parseStops: index stops[parentStopIndex]  [unguarded: gtfs: index []gtfs.Stop]",
+  "gtfs.parseTransfers: index stops[i]  [guard: range-index]",
+  "gtfs.parseTripUpdate: deref *stopTimeEvent.Delay  [guard: nil-checked]",
+  "gtfs.parseTripUpdate: deref *stopTimeEvent.Time  [guard: nil-checked]",
+  "gtfs.parseVehicle: deref *vehiclePosition.CongestionLevel  [guard: nil-checked]",
+  "gtfs.parseVehicleDescriptor: deref *s  [guard: nil-checked]",
+  "journal.BuildJournal: deref *trips[tripID]  [unguarded: journal: deref *journal.Trip]",
+  "journal.DirectoryGtfsrtSource.Next: index s.fileNames[0]  [guard: len-checked]",
+  "journal.DirectoryGtfsrtSource.Next: slice s.fileNames[1:]  [guard: len-checked]",
+  "journal.Trip.markPast: index trip.StopTimes[i]  [guard: bounds-checked]",
+  "journal.Trip.update: index p.new[i]  [guard: range-index]",
+  "journal.Trip.update: index p.past[i]  [guard: range-index]",
+  "journal.Trip.update: slice trip.StopTimes[:len(p.past)+len(p.updated)]  [unguarded: journal: slice []journal.StopTime]",
+  "journal.buildTripUID: slice tripID[6:]  [guard: len-checked]",
+  "journal.createPartition: index stopTimes[firstUpdatedStopTimeIndex+i]  [unguarded: journal: index []journal.StopTime]",
+  "journal.createPartition: index updates[0]  [guard: len-checked]",
+  "journal.createPartition: index updates[updateIndex]  [guard: bounds-checked]",
+  "journal.createPartition: slice stopTimes[:firstUpdatedStopTimeIndex]  [unguarded: journal: slice []journal.StopTime]",
+  "journal.createPartition: slice stopTimes[firstUpdatedStopTimeIndex:]  [unguarded: journal: slice []journal.StopTime]",
+  "journal.createPartition: slice updates[updateIndex:]  [unguarded: journal: slice []gtfs.StopTimeUpdate]",
+  "journal.stopIDOrEmpty: deref *stopTimeUpdate.StopID  [guard: nil-checked]"]
 
 /-- every assignment whose target is (reached through) a package-level variable -/
 def globalWrites : List String := []
@@ -152,70 +165,24 @@ def parseRealtimeUsesForMessage : Bool := true
 /-- ParseRealtime re-points its options parameter to a local copy (`x := *opts; opts = &x`) before any assignment through it -/
 def parseRealtimeWritesOnlyToCopy : Bool := true
 
-/-- the panic-capable sites by function and kind -/
+/-- the panic-capable sites for which the extractor found no local guard (nil check, range index, sort comparator, checked length, constant index into an array), by function and kind: these are discharged by hand -/
 def panicSiteKinds : List String := [
-  "csv.OptionalColumn.Read: index",
-  "csv.OptionalColumn.ReadOr: index",
-  "csv.RequiredColumn.Read: index",
-  "extensions/nyctalerts.buildMetadata: assert",
-  "extensions/nyctalerts.buildMetadata: index",
-  "extensions/nyctalerts.extension.UpdateAlert: deref",
-  "extensions/nyctalerts.extension.updateElevatorAlert: deref",
-  "extensions/nyctalerts.extension.updateElevatorAlert: index",
-  "extensions/nyctalerts.getPriorityFromInformedEntity: assert",
-  "extensions/nyctalerts.getPriorityFromInformedEntity: slice",
-  "extensions/nycttrips.extension.GetTrack: assert",
-  "extensions/nycttrips.extension.updateTripOrVehicle: assert",
-  "extensions/nycttrips.extension.updateTripOrVehicle: index",
-  "extensions/nycttrips.fixMTrainPlatformsInBushwick: index",
-  "extensions/nycttrips.fixMTrainPlatformsInBushwick: slice",
-  "extensions/nycttrips.isStaleUnassignedTrip: index",
-  "gtfs.ParseRealtime: assert",
-  "gtfs.ParseRealtime: deref",
-  "gtfs.ParseRealtime: index",
-  "gtfs.ParseStatic: index",
-  "gtfs.StopTimeUpdate.GetArrival: deref",
-  "gtfs.StopTimeUpdate.GetDeparture: deref",
-  "gtfs.Trip.GetVehicle: deref",
-  "gtfs.Vehicle.GetID: deref",
-  "gtfs.Vehicle.GetTrip: deref",
-  "gtfs.convertOptionalTimestamp: deref",
-  "gtfs.hashNumberPtr: deref",
-  "gtfs.hasher.number: panic",
-  "gtfs.hasher.stringPtr: deref",
-  "gtfs.hasher.trip: deref",
-  "gtfs.hasher.trip: index",
-  "gtfs.mergeTrip: deref",
-  "gtfs.mergeVehicle: deref",
-  "gtfs.parseAlert: deref",
-  "gtfs.parseCalendar: index",
-  "gtfs.parseDirectionID_GTFSRealtime: deref",
-  "gtfs.parseFrequencies: deref",
-  "gtfs.parseGtfsTimeToDuration: index",
-  "gtfs.parseRouteType_GTFSRealtime: deref",
-  "gtfs.parseRoutes: index",
-  "gtfs.parseScheduledStopTimes: index",
-  "gtfs.parseScheduledTrips: index",
-  "gtfs.parseShapes: deref",
-  "gtfs.parseShapes: index",
-  "gtfs.parseStartDate: deref",
-  "gtfs.parseStartDate: index",
-  "gtfs.parseStartTime: deref",
-  "gtfs.parseStartTime: index",
-  "gtfs.parseStops: index",
-  "gtfs.parseTransfers: index",
-  "gtfs.parseTripUpdate: deref",
-  "gtfs.parseVehicle: deref",
-  "gtfs.parseVehicleDescriptor: deref",
-  "journal.BuildJournal: deref",
-  "journal.DirectoryGtfsrtSource.Next: index",
-  "journal.DirectoryGtfsrtSource.Next: slice",
-  "journal.Trip.markPast: index",
-  "journal.Trip.update: index",
-  "journal.Trip.update: slice",
-  "journal.buildTripUID: slice",
-  "journal.createPartition: index",
-  "journal.createPartition: slice",
-  "journal.stopIDOrEmpty: deref"]
+  "csv: index []string",
+  "extensions/nyctalerts: assert interface{}",
+  "extensions/nyctalerts: deref *string",
+  "extensions/nyctalerts: slice string",
+  "gtfs: deref *gtfs.ParseRealtimeOptions",
+  "gtfs: deref *gtfs.Trip",
+  "gtfs: deref *gtfs.TripID",
+  "gtfs: deref *gtfs.Vehicle",
+  "gtfs: index [3]int",
+  "gtfs: index [7]csv.RequiredColumn",
+  "gtfs: index []bool",
+  "gtfs: index []gtfs.Stop",
+  "gtfs: panic in hasher.number",
+  "journal: deref *journal.Trip",
+  "journal: index []journal.StopTime",
+  "journal: slice []gtfs.StopTimeUpdate",
+  "journal: slice []journal.StopTime"]
 
 end Gtfs.Gen.Inventory
